@@ -283,6 +283,113 @@ def run_solver_accepts(mutate=None):
 
 
 
+def array_cases(ns=None):
+    """array arguments and repeated evaluation (the property quantifies over scalar AND array arguments): for every operand pair and operator the
+    composite evaluated three times at the same array points (and time) equals, each time, the operands' own values combined; evaluating the composite
+    writes neither the argument arrays, nor an array an operand's function handed out (a stored array, its own input), nor what an operand
+    evaluated alone gives afterwards.  Runs on the classes given in `ns` (the instrumented real source) or on the imported package."""
+    import numpy as np
+    if ns is None:
+        from tdgl.parameter import Parameter, CompositeParameter
+    else:
+        Parameter, CompositeParameter = ns["Parameter"], ns["CompositeParameter"]
+    problems, n = [], 0
+    npts = 7
+    rng = np.random.default_rng(3)
+    X, Y, Z = rng.uniform(0.5, 1.5, npts), rng.uniform(0.5, 1.5, npts), rng.uniform(0.5, 1.5, npts)
+    STORED = rng.uniform(0.5, 1.5, npts)
+    STORED0 = STORED.copy()
+
+    def a3(x, y, z, k=2.0):
+        return k * x - y + z
+
+    def atd(x, y, z, *, t, k=3.0):
+        return k * x + y * z + t
+
+    def ctd(x, y, z, *, t):
+        return (1.0 + 0.5j) * x + t * y
+
+    def ident(x, y, z):
+        return x
+
+    def stored(x, y, z):
+        return STORED
+
+    def std(x, y, z, *, t):
+        return t
+    raw = dict(a3=lambda t: a3(X, Y, Z), atd=lambda t: atd(X, Y, Z, t=t), ctd=lambda t: ctd(X, Y, Z, t=t), ident=lambda t: X.copy(), stored=lambda t: STORED0.copy(), std=lambda t: t,
+               int=lambda t: 3, float=lambda t: 2.5)
+    mk = dict(a3=lambda: Parameter(a3), atd=lambda: Parameter(atd, time_dependent=True), ctd=lambda: Parameter(ctd, time_dependent=True), ident=lambda: Parameter(ident),
+              stored=lambda: Parameter(stored), std=lambda: Parameter(std, time_dependent=True), int=lambda: 3, float=lambda: 2.5)
+    TD = {"atd", "ctd", "std"}
+    ops = dict(OPS)
+
+    def close(a, b):
+        return np.shape(a) == np.shape(b) and np.allclose(a, b, rtol=1e-12, atol=1e-12)
+    for a, (on, op), b in itertools.product(mk, OPS, mk):
+        if a in ("int", "float") and b in ("int", "float"):
+            continue
+        l, r = mk[a](), mk[b]()
+        c = op(l, r)
+        td = a in TD or b in TD
+        x, y, z = X.copy(), Y.copy(), Z.copy()
+        for rep in range(3):
+            t = 0.75
+            n += 1
+            try:
+                got = c(x, y, z, t=t) if td else c(x, y, z)
+            except Exception as e:   # noqa
+                problems.append(f"{a} {on} {b} at array points: {type(e).__name__}: {e}")
+                break
+            want = op(raw[a](t), raw[b](t))
+            if not close(got, want):
+                problems.append(f"{a} {on} {b}: evaluation #{rep + 1} at the same {npts} array points differs from the operands' values combined (max deviation "
+                                f"{float(np.max(np.abs(np.asarray(got) - np.asarray(want)))):.3g})")
+                break
+            if not (np.array_equal(x, X) and np.array_equal(y, Y) and np.array_equal(z, Z)):
+                problems.append(f"{a} {on} {b}: evaluating the composite wrote to the caller's coordinate arrays")
+                break
+            if not np.array_equal(STORED, STORED0):
+                problems.append(f"{a} {on} {b}: evaluating the composite wrote to an array that an operand's function hands out")
+                STORED[:] = STORED0
+                break
+            for nm_, q_ in ((a, l), (b, r)):
+                if isinstance(q_, Parameter):
+                    alone = q_(x, y, z, t=t) if nm_ in TD else q_(x, y, z)
+                    if not close(alone, raw[nm_](t)):
+                        problems.append(f"{a} {on} {b}: after the composite was evaluated its operand `{nm_}` no longer evaluates to its own function")
+                        break
+    # the same cached operand twice in one tree
+    pt = Parameter(atd, time_dependent=True)
+    tree = pt * 2 + pt
+    for rep in range(2):
+        n += 1
+        got = tree(X.copy(), Y.copy(), Z.copy(), t=0.25)
+        if not close(got, 3 * atd(X, Y, Z, t=0.25)):
+            problems.append(f"p * 2 + p with a time-dependent array-valued p: evaluation #{rep + 1} is not 3 p")
+            break
+    return problems, n
+
+
+def run_call_frame(mutate=None):
+    """frame condition of CompositeParameter.__call__ at ARRAY arguments, executed on the instrumented real source with concrete arrays (whether a call
+    writes to an array it did not create does not depend on the values in it): see array_cases"""
+    L = load(mutate)
+
+    def body():
+        problems, n = array_cases(L.ns)
+        kinds = ("wrote to the caller", "wrote to an array that an operand", "no longer evaluates to its own function", "differs from the operands", "is not 3 p")
+        names = ("C16.call_frame.argument_arrays_not_written", "C16.call_frame.arrays_handed_out_by_operand_functions_not_written", "C16.call_frame.operands_evaluate_to_their_own_function_afterwards",
+                 "C16.call_is_pointwise.at_array_points_on_repeated_evaluation", "C16.call_is_pointwise.same_cached_operand_twice_in_one_tree")
+        for k_, nm_ in zip(kinds, names):
+            hit = [p_ for p_ in problems if k_ in p_]
+            sym.check_terms(nm_, not hit, note=(hit[0] if hit else ""))
+        rest = [p_ for p_ in problems if not any(k_ in p_ for k_ in kinds)]
+        sym.check_terms("C16.call_frame.array_evaluation_raises_nothing", not rest, note=(rest[0] if rest else ""))
+    obls, n = explore(body, safety=False)
+    return dict(obls=obls, paths=n, sources=[L.info()], consistent=True)
+
+
 def _bounded_quick():
     r = replay('bounded', dict(name=''))
     return ([r.get('failing_input')] if r.get('confirmed') else []), 1
@@ -331,6 +438,7 @@ def run_linear_ramp(mutate=None):
 
 def units():
     return [Unit("CompositeParameter[operand contract -> composite contract]", M + ":Parameter / CompositeParameter", run_induction, props=["C16", "C14"], timeout=900),
+            Unit("CompositeParameter.__call__[array arguments, frame]", M + ":CompositeParameter.__call__ / Parameter.__call__", run_call_frame, props=["C16"], timeout=300),
             Unit("solver touch points", M + ":CompositeParameter", run_solver_accepts, props=["C16"], timeout=300),
             Unit("sources.scaling", SC_ + ":linear_ramp, LinearRamp, Scale", run_linear_ramp, props=["C16"], timeout=300),
             _h.bounded_unit("real parameters on numeric leaves [bounded]", "tdgl.parameter (real classes)", "C16", _bounded_quick, "composites_of_numeric_leaves_are_pointwise_and_survive_pickling", timeout=900)]
@@ -436,6 +544,8 @@ def replay(unit, obl):
                     problems.append(f"{a} {o} {b}: after pickling once the original differs from its copy (values {v_c}, {v_d}, second copy {v_d2})")
         except Exception as e:
             problems.append(f"{a} {o} {b}: {type(e).__name__}: {e}")
+    if not m:
+        problems += array_cases()[0]
     if problems:
         return dict(confirmed=True, failing_input=problems[0], n_failing=len(problems), tdgl_file=tdgl.__file__)
     return dict(confirmed=False, tdgl_file=tdgl.__file__)
